@@ -51,6 +51,15 @@ def render_block(stmts, prefix, ind, out):
             else:
                 arg = ", ".join(f"{b}()" for b, w in items)
             out.append(f"{pad}do {k} {arg}")
+        elif k == "takernd":
+            kind, params = st[1]
+            if kind == "uniform":
+                e = "Uniform(" + ", ".join(repr(x) for x in params) + ")"
+            elif kind == "discrete":
+                e = "Discrete({" + ", ".join(f"{v!r}: {w!r}" for v, w in params) + "})"
+            else:
+                e = f"DiscreteRange({params[0]}, {params[1]})"
+            out.append(f"{pad}take probe.Act({e})")
         elif k == "terminate":
             out.append(pad + "terminate")
         elif k == "termsim":
@@ -383,3 +392,72 @@ def all_tables(names, steps):
         for i, name in enumerate(names):
             t[name] = list(bits[i * steps : (i + 1) * steps]) + [False]
         yield t
+
+
+# ---------------------------------------------------------------------------------------
+# C19: do choose / do shuffle / run-time random values
+# ---------------------------------------------------------------------------------------
+
+C19_ITEMS = {
+    "PA": {"pre": ["pa"], "body": [("take", "a")]},
+    "PB": {"pre": ["pb"], "body": [("take", "b1"), ("take", "b2")]},
+    "PC": {"pre": ["pc"], "body": [("take", "c")]},
+}
+
+C19_WEIGHTS2 = [(1, 1), (1, 2), (3, 1), (0.5, 1), (2, 0.5)]
+C19_WEIGHTS3 = [(1, 1, 1), (1, 2, 3), (2, 2, 1), (0.5, 1, 3), (3, 0.5, 0.5)]
+
+
+def c19_programs(tier):
+    thorough = tier == "thorough"
+    idx = 0
+    names = ["PA", "PB", "PC"]
+
+    def emit(body):
+        nonlocal idx
+        behaviors = dict(C19_ITEMS)
+        behaviors["B"] = {"body": body}
+        prog = {"behaviors": behaviors, "monitors": {}, "agents": [("A1", "B")], "top": {}}
+        i = idx
+        idx += 1
+        return i, prog
+
+    for kind in ("choose", "shuffle"):
+        for n, wsets in ((2, C19_WEIGHTS2), (3, C19_WEIGHTS3)):
+            for wi, ws in enumerate(wsets):
+                forms = ("dict", "list") if wi == 0 else ("dict",)
+                for form in forms:
+                    items = [(names[i], ws[i] if form == "dict" else 1) for i in range(n)]
+                    st = (kind, items, form)
+                    yield emit([st, ("take", "after")])
+                    if wi < (5 if thorough else 2):
+                        # twice in a row: independence of successive picks
+                        yield emit([st, st, ("take", "after")])
+                        yield emit([("loop", 2, [st]), ("take", "after")])
+                    if thorough or wi < 2:
+                        yield emit([("take", "pre0"), st, ("take", "after")])
+    # run-time random values evaluated inside a behavior, twice in a row
+    for spec in [
+        ("uniform", ("u1", "u2", "u3")),
+        ("discrete", (("d1", 1), ("d2", 3))),
+        ("range", (1, 3)),
+        ("discrete", (("e1", 0.5), ("e2", 1), ("e3", 0.5))),
+    ]:
+        yield emit([("takernd", spec), ("takernd", spec), ("take", "after")])
+        yield emit([("loop", 3, [("takernd", spec)])])
+
+
+def constant_tables(names):
+    """All assignments of constant truth values, plus every single switch-over step."""
+    for bits in itertools.product((True, False), repeat=len(names)):
+        yield {n: [b] for n, b in zip(names, bits)}
+
+
+def switching_tables(names, steps):
+    """One condition changes value at step k (both directions), the others stay true."""
+    for n in names:
+        for k in range(1, steps):
+            for first in (True, False):
+                t = {m: [True] for m in names}
+                t[n] = [first] * k + [not first]
+                yield t
